@@ -22,9 +22,10 @@ func init() {
 			"(6) an empty value is not turned into a deletion on the request path. " +
 			"Added after blind round 4: the prefix/suffix predicates (bytes.HasPrefix/HasSuffix or a hand-written test that agrees with them on the length/equality table). " +
 			"Added after blind round 5: a handle is removed only on exits that finished the transaction (shared with C17). " +
-			"Added after blind round 7: the sweeper's idle criterion cross-listed from C17 (the service runs the sweep at every BeginTransaction RPC).",
+			"Added after blind round 7: the sweeper's idle criterion cross-listed from C17 (the service runs the sweep at every BeginTransaction RPC). " +
+			"Added after blind round 8: a handler that fills a repeated field in a loop allocates each element inside the loop; handlers write no fields of the server object.",
 		NotDecided: "equality of responses with the embedded API for all request sequences and data sets; gRPC transport behaviour; connection-bound transaction cleanup; GetStats contents.",
-		Rules:      []func(*Ctx, *Reporter){ruleC19Delegation, ruleC19Limits, ruleC19Rejection, ruleC19Handles, ruleC19ScanOptions, ruleScanConsumers, ruleEmptyNotDeleted, ruleFilter, ruleTxOrphanRemoval, subRules(ruleTxStale, "cleanup-criteria")},
+		Rules:      []func(*Ctx, *Reporter){ruleC19Delegation, ruleC19Limits, ruleC19Rejection, ruleC19Handles, ruleC19ScanOptions, ruleScanConsumers, ruleEmptyNotDeleted, ruleFilter, ruleTxOrphanRemoval, subRules(ruleTxStale, "cleanup-criteria"), ruleHandlersAppendFreshElements, ruleHandlersKeepNoState},
 	})
 }
 
